@@ -327,6 +327,7 @@ fn check_bad(case: &BadCase, ctx: &mut Ctx) -> Result<(), Fail> {
 pub fn property() -> Property {
     Property {
         id: "C13",
+        quick_mult: 40,
         rule: "point sets of 1..100 (quick) / 150 (thorough) points in 1..4 dimensions: continuous, {0..3}^d lattice, all identical, collinear, duplicates, chains with integer gaps, blobs; eps equal to a realised pairwise distance, between two of them, below the smallest ('all noise') or beyond the largest ('one cluster'); min_samples 1..8; Euclidean and Manhattan; both backends on every case; plus the exhaustive enumeration of all subsets of <= 7 points of the line {0..6} and the 3x3 grid x eps in {1, sqrt 2, 2} x min_samples 1..4. non-trivial = (at least one border point and at least two clusters) or a border point that precedes every core point of its cluster in scan order (provisionally noise, later relabelled); distinct = distinct serialised case",
         assumptions: vec![
             "neighbourhoods of the reference are computed with the library's own Distance::distance (metrics are pinned by C17)".into(),
